@@ -379,6 +379,8 @@ class SchemaBuilder(
             len(results) == 2
             and all("type" in res for res in results)
             and {"type": "null"} in results
+            # adding "null" to `type` is not enough when the values are enumerated
+            and not any("enum" in res or "const" in res for res in results)
         ):
             for result in results:
                 if result != {"type": "null"}:
